@@ -295,8 +295,15 @@ def install_walker_env(ctx, eng, nsources=1):
         return [Outcome(ok(m), [wfact("lexists", p)], events=[Event("symlink_metadata", [p], "ok")]),
                 Outcome(ioerr("NotFound"), [z3.Not(wfact("lexists", p))], events=[Event("symlink_metadata", [p], "absent")]),
                 Outcome(ioerr("Other"), events=[Event("symlink_metadata", [p], "err")])]
+    def s_meta_is(nm):
+        def h(e, st, c, a, d):
+            m = deref_ref(e, st, a[0])
+            if "stat_of" in m.attrs:
+                return Outcome(BoolV(z3.BoolVal(False) if nm == "is_symlink" else wfact(nm, m.attrs["stat_of"])))
+            return Outcome(BoolV(wfact("lstat_" + nm, m.attrs.get("of"))))
+        return h
     for nm in ("is_file", "is_dir", "is_symlink"):
-        front(r"^(std::fs::)?Metadata::%s$" % nm, (lambda nm: lambda e, st, c, a, d: Outcome(BoolV(wfact("lstat_" + nm, deref_ref(e, st, a[0]).attrs.get("of")))))(nm))
+        front(r"^(std::fs::)?Metadata::%s$" % nm, s_meta_is(nm))
     front(r"^(std::path::)?Path::symlink_metadata$", s_lstat)
     front(r"^(std::fs::)?Metadata::file_type$", lambda e, st, c, a, d: Outcome(OpaqueV("std::fs::FileType", None, {"of": deref_ref(e, st, a[0]).attrs.get("of")})))
 
@@ -361,11 +368,32 @@ def install_walker_env(ctx, eng, nsources=1):
             tie(st, p)
             fsm = st.ghost.setdefault("fs", {})
             fsm[(name, repr(p))] = wfact(name, p)
-            return Outcome(BoolV(wfact(name, p)), events=[Event("Path::" + name, [p], BoolV(wfact(name, p)))])
+            outs = [Outcome(BoolV(wfact(name, p)), events=[Event("Path::" + name, [p], BoolV(wfact(name, p)))])]
+            # exists()/is_dir() answer `false` when the stat itself fails (explored once per path, single-source mode)
+            if not st.ghost.get("stat_swallowed") and st.ghost.get("nsources", 1) == 1 and name in ("exists", "is_dir"):
+                def eff(eng, s2, a2):
+                    s2.ghost["stat_swallowed"] = True
+                outs.append(Outcome(BoolV(False), events=[Event("Path::" + name, [p], "stat-failed")], effect=eff))
+            return outs
         return h
     front(r"^(std::path::)?Path::exists$", s_exists("exists"))
     front(r"^(std::path::)?Path::is_dir$", s_exists("is_dir"))
     front(r"^(std::path::)?Path::is_file$", s_exists("is_file"))
+
+    def s_try_exists(eng, st, callee, args, dty):
+        p = pexpr(eng, st, args[0])
+        tie(st, p)
+        return [Outcome(ok(BoolV(wfact("exists", p))), events=[Event("Path::try_exists", [p], BoolV(wfact("exists", p)))]),
+                Outcome(err("std::io::Error"), events=[Event("Path::try_exists", [p], "err")])]
+    front(r"^(std::path::)?Path::try_exists$", s_try_exists)
+
+    def s_stat(eng, st, callee, args, dty):
+        p = pexpr(eng, st, args[0])
+        tie(st, p)
+        m = OpaqueV("std::fs::Metadata", "stat:" + repr(p), {"stat_of": p})
+        return [Outcome(ok(m), [wfact("exists", p)], events=[Event("Path::metadata", [p], "ok")]),
+                Outcome(err("std::io::Error"), events=[Event("Path::metadata", [p], "err")])]
+    front(r"^(std::path::)?Path::metadata$", s_stat)
     front(r"^(std::path::)?Path::is_symlink$", s_exists("is_symlink"))
 
     # ---- channels
@@ -441,6 +469,12 @@ def _walker(ctx, src_exprs):
     seen = set()
     for p in paths:
         names = trace_names(p)
+        if p.ghost.get("stat_swallowed"):
+            okp = p.status == "return" and is_err(p.ret)
+            (ctx.passed if okp else ctx.fail)(
+                "C02/C04/C08: a failed stat of the destination is an error, not 'nothing there' (the mapping dest/<name> vs dest must not flip on it)",
+                str(names[-8:]), **({} if okp else {"key": "stat-error-taken-for-absent"}))
+            continue
         if p.status == "bound":
             ctx.fail("tree_walker: explored within the loop bound", p.msg)
             continue
